@@ -25,6 +25,9 @@ def _stub_path(spt, lens):
         def __init__(self, idx, ln):
             self.idx, self._len = idx, ln
             self.start, self.end = complex(idx, 0), complex(idx + 1, 0)
+            if idx % 3 == 1:
+                # a loop: ends where it starts, whatever its length (the model - like the code - lets the LENGTH decide what is zero-length)
+                self.end = self.start
 
         def length(self, t0=0, t1=1, error=None, min_depth=None):
             return self._len * (t1 - t0)
